@@ -19,18 +19,21 @@ def r_varmap(rule, root=None):
                 rule.bad("get|%s" % pt, "VarMap::get(%s) returns `%s`" % (pt, tt), A.where(fn, arm))
         elif pt.startswith("Var::V("):
             vn = pt[7:-1]
-            if tt == "self.v.get(%s).cloned()" % vn:
+            if tt in ("self.v.get(%s).cloned()" % vn, "self.v.get(%s).copied()" % vn, "self.v.get(&%s).copied()" % vn, "self.v.get(&%s).cloned()" % vn):
                 rule.ok("VarMap::get Var::V -> self.v[id]")
             else:
                 rule.bad("get|V", "VarMap::get(Var::V) returns `%s`" % tt, A.where(fn, arm))
     fn = A.find_fn(VAR, "insert", self_ty="VarMap", root=root)
     t = A.ftxt(fn["body"])
-    if not t.startswith("{letnext=self.len();"):
+    mn = t.fmatch("let$N=self.len();")
+    nxt = mn["$N"] if mn else "self.len()"
+    first = fn["body"]["stmts"][0] if fn["body"]["stmts"] else {}
+    if mn is None and "self.len()" not in t:
         rule.bad("insert|next", "VarMap::insert must number a new variable with the current length", A.where(fn))
     else:
         rule.ok("VarMap::insert: next index = len()")
     ms = list(A.find(fn["body"], "Match"))
-    want = {"Var::X": "self.x.get_or_insert(next)", "Var::Y": "self.y.get_or_insert(next)", "Var::Z": "self.z.get_or_insert(next)"}
+    want = {"Var::X": "self.x.get_or_insert(%s)" % nxt, "Var::Y": "self.y.get_or_insert(%s)" % nxt, "Var::Z": "self.z.get_or_insert(%s)" % nxt}
     for arm in ms[0]["arms"] if ms else []:
         pt = A.ftxt(arm["pat"])
         tt = A.ftxt(arm["body"])
@@ -41,13 +44,24 @@ def r_varmap(rule, root=None):
                 rule.bad("insert|%s" % pt, "VarMap::insert(%s) does `%s`; an already-present variable must keep its index (get_or_insert)" % (pt, tt), A.where(fn, arm))
         elif pt.startswith("Var::V("):
             vn = pt[7:-1]
-            if tt == "self.v.entry(%s).or_insert(next)" % vn:
+            if tt == "self.v.entry(%s).or_insert(%s)" % (vn, nxt):
                 rule.ok("VarMap::insert Var::V keeps an existing index")
             else:
                 rule.bad("insert|V", "VarMap::insert(Var::V) does `%s`" % tt, A.where(fn, arm))
     fn = A.find_fn(VAR, "len", self_ty="VarMap", root=root)
     t = A.ftxt(fn["body"])
-    if all(x in t for x in ("self.x.is_some()asusize", "self.y.is_some()asusize", "self.z.is_some()asusize", "self.v.len()")) and t.count("+") == 3:
+    terms = []
+
+    def _terms(e):
+        e = A.strip(e)
+        if e.get("k") == "Binary" and e["op"] == "+":
+            _terms(e["left"]); _terms(e["right"])
+        else:
+            from .. import effects as E_
+            terms.append(E_.canon(e))
+
+    _terms(A.unblock(fn["body"]))
+    if sorted(terms) == sorted(["self.x.is_some()", "self.y.is_some()", "self.z.is_some()", "self.v.len()"]):
         rule.ok("VarMap::len counts x, y, z and every free variable once")
     else:
         rule.bad("len", "VarMap::len must count each of x, y, z and all free variables exactly once", A.where(fn))
